@@ -368,3 +368,12 @@ def sunfrac(vc):
             lens = quad(chord, lo, hi, epsabs=1e-13, epsrel=1e-10, limit=400, points=[min(max((c * c + a * a - b * b) / (2 * c), lo), hi)])[0] if hi > lo else 0.0
             ok = abs(frac - (1 - lens / (np.pi * a * a))) < 1e-5 and -1e-9 <= frac <= 1 + 1e-9
         vc.ensure("O-C14-sunfrac.partial", ok)
+
+
+# the limb / lighting / exclusion predicates above are proved as functions; that the optical sensor calls them with the SENSOR's state, the line of sight and the
+# target->Sun direction is the C02 optical contract, re-checked in this property's own run
+from pyvc.harness import share as _share  # noqa: E402
+
+
+from contracts import C02 as _C02  # noqa: E402,F401  (mutual import with C02: both share after all their own harnesses are registered)
+_share("C02", "optical", "C14")
